@@ -463,7 +463,7 @@ fn main() {
     if let Err(e) = self_checks(ctx.seed) { println!("HARNESS-ERROR C12 self-check failed: {e}"); std::process::exit(3); }
     let mut rep = Report::new();
     let right = Wrong { expectation: false };
-    run_cases(&ctx, &replay, &mut rep, "stream", ctx.tier.pick(8_000, 200_000), |rng, rep, case| one_case(rng, rep, case, None, &right));
+    run_cases(&ctx, &replay, &mut rep, "stream", ctx.tier.pick(30_000, 200_000), |rng, rep, case| one_case(rng, rep, case, None, &right));
     {
         let scratch = Scratch::new(&ctx);
         run_cases(&ctx, &replay, &mut rep, "directory", ctx.tier.pick(800, 10_000), |rng, rep, case| one_case(rng, rep, case, Some(&scratch), &right));
